@@ -146,6 +146,16 @@ func planC09(tier string, root *simcore.RNG) *plan {
 			}
 			g = append(g, s.job(id))
 		}
+		// concurrent exports of one part into several formats: same directory, same base name
+		if conc > 1 && r.Intn(2) == 0 {
+			seenSink := map[string]bool{}
+			for k := range g {
+				if g[k].Sink != "tri" && !seenSink[g[k].Sink] {
+					seenSink[g[k].Sink] = true
+					g[k].Name = "=part.EXT"
+				}
+			}
+		}
 		sc.Groups = append(sc.Groups, g)
 		// a program that keeps its renderer values (and its model, changed through
 		// setters between renders) in variables: every job takes them from the
@@ -258,7 +268,7 @@ func planC09(tier string, root *simcore.RNG) *plan {
 		kinds := []c09sig{
 			{"mcu", pick(r0, model3Names), "tri", 12}, {"mco", pick(r0, model3Names), "stl", 12},
 			{"msu", pick(r0, model2Names), "svg", 24}, {"msq", pick(r0, model2Names), "dxf", 24}, {"msq", pick(r0, model2Names), "svg", 40},
-			{"msu", pick(r0, model2Names), "dxf", 64 + r0.Intn(64)}, {"mcu", pick(r0, model3Names), "stl", 40},
+			{"msu", pick(r0, model2Names), "dxf", 64 + r0.Intn(64)}, {"mcu", pick(r0, model3Names), "stl", 26},
 			{"dc2", pick(r0, model2Names), "dxf", 16}, {"dc3v2", "sphere-box", "tri", 6}, {"dc3v1", "csg", "stl", 6},
 		}
 		cpus := []int{1, 2, 3, 4, 8, 16}
@@ -352,7 +362,8 @@ func planC09(tier string, root *simcore.RNG) *plan {
 		for _, s := range cat {
 			have[s.key()] = true
 		}
-		list := []c09sig{{"mcu", pick(r0, model3Names), "stl", 12}, {"mcu", pick(r0, model3Names), "3mf", 10}, {"msq", pick(r0, model2Names), "dxf", 60}, {"mco", pick(r0, model3Names), "stl", 16}}
+		plain3 := []string{"sphere-box", "csg", "cube", "array", "multi-intersect"} // (models without a lock per evaluation: the sweep is about the renderers)
+		list := []c09sig{{"mcu", pick(r0, plain3), "stl", 12}, {"mcu", pick(r0, plain3), "3mf", 10}, {"msq", pick(r0, model2Names), "dxf", 60}, {"mco", pick(r0, plain3), "stl", 16}}
 		kmax := 12
 		if tier == "thorough" {
 			kmax = 20
@@ -437,8 +448,11 @@ func planC09(tier string, root *simcore.RNG) *plan {
 			every, nv = 1, 3
 		}
 		rot := r0.Intn(every)
+		// shapes with large internal tables (thousands of segments) are always in, at a
+		// resolution that keeps every worker busy, in three more processes
+		big := map[string]bool{"x-polygon2d-3000": true, "x-polygon2d-6000-extrude": true, "x-mesh2d-1500": true}
 		for ni, name := range names {
-			if ni%every != rot {
+			if ni%every != rot && !big[name] {
 				continue
 			}
 			e := &catalogue[catalogueIndex[name]]
@@ -447,15 +461,22 @@ func planC09(tier string, root *simcore.RNG) *plan {
 				cells = 6
 			}
 			s := c09sig{pick(r0, []string{"mcu", "mcu", "mco"}), "cat:" + name, "tri", cells}
+			if big[name] {
+				s = c09sig{"mcu", "cat:" + name, "tri", 28}
+			}
 			cat = append(cat, s)
 			pl.scenarios = append(pl.scenarios, &Scenario{Prop: "C09", Family: "render", Seed: r0.Uint64(), Groups: [][]Job{{s.job(1)}},
 				Sched: Sched{Policy: "fifo"}, Sites: map[string]uint32{}, Env: Env{GOMAXPROCS: 16, CPUs: 16}, Note: "canonical"})
-			for k := 0; k < nv; k++ {
+			nvv := nv
+			if big[name] {
+				nvv = 3
+			}
+			for k := 0; k < nvv; k++ {
 				r := root.Fork()
 				pl.scenarios = append(pl.scenarios, &Scenario{Prop: "C09", Family: "render", Seed: r.Uint64(), Groups: [][]Job{{s.job(1)}},
 					Sites: map[string]uint32{"close": 1, "worker.start": 1, "mc.sent": 1, "cons.tri": 1},
 					Sched: Sched{Policy: pick(r, []string{"uniform", "lifo", "fifo"}), Seed: r.Uint64()},
-					Env: Env{GOMAXPROCS: pick(r, []int{1, 4, 16}), CPUs: pick(r, []int{2, 4, 16})}, Note: "catalogue"})
+					Env:   Env{GOMAXPROCS: pick(r, []int{1, 4, 16}), CPUs: pick(r, []int{2, 4, 16})}, Note: "catalogue"})
 			}
 		}
 	}
